@@ -208,6 +208,17 @@ class EncFrame(Component):
         for n in range(2, 26):
             for sh in ('edge', 'noise', 'alt'):
                 out.append(self.one(rng, n, 1, 32, sh, optsets[n % len(optsets)], 96000))
+        # one large step in a 32-/24-bit channel: the LPC prediction right behind the step lies outside the sample range
+        # (for 32-bit audio outside i32: a prediction truncated before the subtraction encodes the sample + k * 2^32)
+        for bps in (32, 24):
+            hi = (1 << (bps - 1)) - 1; lo = -(1 << (bps - 1))
+            for (a, b) in ((lo * 72 // 100, hi * 9 // 10), (hi, lo), (lo + 5, hi - 7), (hi * 3 // 4, lo * 3 // 4), (-1553219575 >> (32 - bps), 1939558944 >> (32 - bps))):
+                for k in (1, 2, 3, 7):
+                    for n in (8, 24):
+                        for o in ({}, {'lpc': '2'}, {'lpc': '8', 'win': 'rect'}):
+                            f = dict(o); f['rate'] = 44100; f['ch'] = 1; f['bps'] = bps; f['shape'] = 'bigstep'
+                            f['pcm'] = gen.join([a] * k + [b] * (n - k))
+                            out.append('encframe ' + gen.fields_str(f))
         # incompressible blocks long enough for any expansion to outgrow the per-subframe allowance, with and without LPC
         for sh in ('noise', 'alt', 'edge'):
             for n in (256, 1024) + ((4096,) if tier == 'thorough' else ()):
@@ -1377,12 +1388,13 @@ C01_THEOREMS = ['Flac.C01.stereo_leftside_inverse', 'Flac.C01.stereo_sideright_i
                 'Flac.C01.rice_fold_neg', 'Flac.C01.rice_fold_pos', 'Flac.C01.fold_unfold']
 
 PROPS['C01'] = dict(
-    module='FlacModel.Props.C01c',
+    module='FlacModel.Props.C01d',
     theorems=C01_THEOREMS + ['Flac.C01.frame_roundtrip', 'Flac.C01.frame_roundtrip_checked', 'Flac.decodeFrame_serialize', 'Flac.frameWfB_sound',
                              'Flac.readHeaderFields_write', 'Flac.readSubframe_write', 'Flac.readResidual_write', 'Flac.crc8_self', 'Flac.crc16_self',
                              'Flac.C01.lpc_restores', 'Flac.C01.fixed_restores', 'Flac.C01.wasted_restores', 'Flac.C01.recorrelate_stereo',
                              'Flac.C01.lossless_independent', 'Flac.C01.lossless_stereo',
-                             'Flac.C01.declared_total_decodes_all', 'Flac.C01.stream_of_frames_lossless', 'Flac.C14.interrupted_decodes_complete_frames'],
+                             'Flac.C01.declared_total_decodes_all', 'Flac.C01.stream_of_frames_lossless', 'Flac.C14.interrupted_decodes_complete_frames',
+                             'Flac.C01.file_head_roundtrip', 'Flac.C01.file_lossless'],
     components=[EncFrame('roundtrip'), RoundTripFile()],
     rule='encframe: every length 1..48 (quick) / 1..96 (thorough) x 11 signal shapes x mono/stereo x 6 option sets, plus random '
          '(channels 1-8, depth in the subset codes, lengths around powers of two and block-size codes, all option dimensions); every frame the real '
@@ -1398,9 +1410,11 @@ PROPS['C01'] = dict(
           'them. stream_of_frames_lossless / declared_total_decodes_all: the frame loop of the file readers (Decoder::read_frame driven to the end, with its total-sample accounting, '
           'overshoot and short-block rules) over ANY sequence of well-formed frames whose block sizes add up to the declared total returns exactly the samples of every frame, in order, then a clean '
           'end of stream, whatever follows the last frame (undeclared total: C14.interrupted_decodes_complete_frames with an empty cut). '
+          'file_lossless: the metadata section written by write_blocks (model writeBlocks) for any block list headed by a well-formed STREAMINFO with a declared total, followed by any such frame '
+          'sequence, is decoded by the file readers\' model fileDecode - fLaC tag, block walk, STREAMINFO, frame loop - to exactly the frames\' samples with that STREAMINFO (file_head_roundtrip for the head). '
           'frameWfB_sound: the executable test the driver runs on real encoder output implies the hypothesis. Plus the mechanism theorems '
           'stereo_*_inverse, wasted_inverse, predict_restore, layout_agree, rice_fold_*/fold_unfold.',
-    note='The metadata section in front of the frames, the reader front-ends above the frame loop (C07) and the MD5 are composed by the correspondence run, not into one file-level theorem; '
+    note='The reader front-ends above the frame loop (C07, tied to the loop by C07.loop_refines) and the MD5 are not composed into the file-level theorem; '
          'depth-32 stereo (the 33-bit side channel) is proved only at kernel level (C03 wide_*); the choice logic of the encoder (which candidate wins) is '
          'universally quantified, never modelled: that the real encoder emits a frame of the proved domain is checked per generated frame (frameWfB + re-serialization).',
     trusted_base=COMMON_TRUST,
@@ -1412,7 +1426,7 @@ PROPS['C02'] = dict(
     module='FlacModel.Props.C02',
     theorems=['Flac.C02.gen_crc8_is_poly07', 'Flac.C02.gen_crc16_is_poly8005', 'Flac.C02.gen_crc8_update_shape',
               'Flac.C02.gen_crc16_update_shape', 'Flac.C02.gen_crc16_one_byte', 'Flac.C02.gen_crc8_one_byte',
-              'Flac.C02.crc16_all_messages', 'Flac.C02.crc8_all_messages', 'Flac.CrcEq.step0_xor', 'Flac.CrcEq.fold_xor',
+              'Flac.C02.crc16_all_messages', 'Flac.C02.crc8_all_messages', 'Flac.CrcEq.step0_xor', 'Flac.CrcEq.fold_xor', 'Flac.C02.residual_exact',
               'Flac.C02.gen_tables_eq_rfc', 'Flac.C02.gen_write_read_inverse', 'Flac.C02.rfc_layout_is_rchunks'],
     components=[EncFrame('spec')],
     rule='every generated frame of the real encoder (same space as C01) is decoded by the independent L0 decoder Spec.specDecode '
@@ -1451,10 +1465,10 @@ PROPS['C19'] = dict(
 )
 
 PROPS['C07'] = dict(
-    module='FlacModel.Props.C07',
+    module='FlacModel.Props.C07b',
     theorems=['Flac.C07.readFrame_good', 'Flac.C07.step_exact', 'Flac.C07.reader_exactly_once', 'Flac.C07.fresh_reader_prefix',
               'Flac.C07.eos_idempotent', 'Flac.C07.eos_only_at_end', 'Flac.C07.byte_eq_serialised_samples', 'Flac.C07.chan_eos_idempotent',
-              'Flac.C07.chanStep_exact', 'Flac.C07.chan_reader_exactly_once', 'Flac.C07.fresh_chan_reader_prefix'],
+              'Flac.C07.chanStep_exact', 'Flac.C07.chan_reader_exactly_once', 'Flac.C07.fresh_chan_reader_prefix', 'Flac.C07.loop_refines'],
     components=[ReaderHist('noseek')],
     rule='12 (quick) / 80 (thorough) files written by the real encoder (1-8 channels, depths 4-32, non-periodic noise, short final blocks, declared and '
          'undeclared totals) x random histories over read(n)/fill/consume(k)/iterate on the byte, sample, iterator and channel readers, both byte orders, '
@@ -1466,7 +1480,8 @@ PROPS['C07'] = dict(
           'chan_eos_idempotent: once nothing remains every further call signals end again; eos_only_at_end: an empty read means everything was delivered; '
           'byte_eq_serialised_samples: byte stream = sample stream serialised at ceil(depth/8) bytes. chan_reader_exactly_once: for EVERY history of fill_buf/consume on the '
           'per-channel reader over rectangular frames and EVERY channel, what left the reader followed by what it still holds is that channel of the whole decoded stream '
-          '(the de-interleaved samples).',
+          '(the de-interleaved samples). loop_refines: the abstract decoder of these state machines (Dec.readFrame over a frame list) is the byte-level frame loop (decodeLoop) seen frame by frame - '
+          'same frames delivered, same stop reason (end at the declared total, TooManySamples, ShortBlock, end of data).',
     note='Independence from how the source fragments its reads is a property of the model by construction (it never sees read boundaries) and is '
          'exhibited for the implementation by fragmenting sources; BufReader/read_exact are trusted.',
     trusted_base=COMMON_TRUST,
@@ -1474,9 +1489,9 @@ PROPS['C07'] = dict(
 )
 
 PROPS['C06'] = dict(
-    module='FlacModel.Props.C06',
+    module='FlacModel.Props.C06b',
     theorems=['Flac.C06.seek_lands', 'Flac.C06.skipTo_spec', 'Flac.C06.seek_refines_cursor', 'Flac.C06.end_seek_in_bytes',
-              'Flac.C06.start_current_targets', 'Flac.C06.lastPointLe_mem', 'Flac.C06.chan_skipTo_spec', 'Flac.C06.chan_seek_lands'],
+              'Flac.C06.start_current_targets', 'Flac.C06.lastPointLe_mem', 'Flac.C06.chan_skipTo_spec', 'Flac.C06.chan_seek_lands', 'Flac.C06.finalize_table_truthful', 'Flac.C06.filtered_point_truthful'],
     components=[ReaderHist('seek')],
     rule='same files as C07 with every seek-table policy the encoder offers (off, every frame, every 2/3 frames, every second at low rates, default) x '
          'random interleavings of read/fill/consume with Start/Current/End byte seeks and sample seeks, targets biased to 0, frame boundaries +-1, end-1, end, '
@@ -1487,7 +1502,8 @@ PROPS['C06'] = dict(
           'state; end_seek_in_bytes / start_current_targets: End-relative requests are measured in bytes, Start literally, Current from bytes delivered. '
           'chan_seek_lands: after FlacChannelReader::seek(sample) every channel resumes exactly at PCM frame `sample` of that channel of the whole stream (chan_skipTo_spec: the '
           'skip loop drops the same number of PCM frames from every channel), and the seek fails beyond the end.',
-    note='TableTruthful is a hypothesis (C09 shows it for files written by the crate).',
+    note='TableTruthful is a hypothesis of the seek theorems; finalize_table_truthful discharges it for every table finalize writes (all three layout cases, every interval policy, any frames of non-zero size), '
+         'from C09.written_points_truthful.',
     trusted_base=COMMON_TRUST,
     assumptions=['TableTruthful: every defined seek point names the first sample and byte offset of a real frame'],
 )
